@@ -10,6 +10,7 @@ Case kinds
   ctm_text  read_ctm of foreign files (unsorted, confidence column, comments, bad lines)
   tg        write_textgrid (file, path; every option) -> bytes vs model; read_textgrid back
   tok       transcript_to_token -> rows vs model; token_to_transcript back
+  tok_back  token_to_transcript of arbitrary (R,3), (R,1), (R,) tensors (one-sided -1 markers)
 Known finding K5 (write_textgrid given a path drops point_tier/precision) has an as-coded and a
 repaired model (DESIGN 2.2); the implementation must agree with one of the two on ALL
 discriminating cases of a run.  (read_textgrid's former string sort is repaired in /repo: the model
@@ -34,7 +35,8 @@ THEOREMS = {
     "ctm": ["c11_ctm_roundtrip_up_to_order", "c11_ctm_wc2utt_bijective"],
     "ctm_text": ["c11_ctm_roundtrip_up_to_order"],
     "tg": ["c11_textgrid_roundtrip_to_precision", "c11_textgrid_fill_tiles", "c11_path_eq_file_refuted", "c11_path_eq_file_when_defaults"],
-    "tok": ["c11_frames_within_one_shift", "c11_token_ids_roundtrip"],
+    "tok_back": ["c11_tokens_roundtrip"],
+    "tok": ["c11_frames_within_one_shift", "c11_token_ids_roundtrip", "c11_tokens_roundtrip"],
 }
 
 
@@ -349,6 +351,8 @@ def terms_ctm(case, out):
                 f"match {rd} with Ok r => ctm_roundtrip_okb {key} {tsq} r | Raise _ => false end")
         elif case.get("roundtrip"):
             terms["spec: read(write ts) = ts up to order"] = "false"
+    elif case.get("roundtrip"):
+        terms["spec: read(write ts) = ts up to order"] = "false"     # a valid transcript was refused
     return terms, meta
 
 
@@ -486,24 +490,33 @@ def terms_tg(case, out):
         tr = case["tr"]
         expressible = (all(x[1] <= x[2] for x in tr) and all(a[2] <= b[1] for a, b in zip(tr, tr[1:]))
                        and all('"' not in x[0] and "\n" not in x[0] and "\r" not in x[0] for x in tr))
-        if expressible and out["r_file"][1] is None:
+        tid = case.get("tier_id", 0)
+        if expressible and (tid in (0, -1) or tid == case.get("tier_name", "transcript")):
             terms["spec: read(write tr) = tr to print precision / gaps tiled"] = tg_spec_term(case, out)
         if out["r_path"] != out["r_file"]:
             meta.append("read_textgrid: path result differs from open-file result")
+    elif tg_must_write(case) and all(x[1] <= x[2] for x in case["tr"]):
+        terms["spec: read(write tr) = tr to print precision / gaps tiled"] = "false"   # a writable transcript was refused
     return terms, meta
 
 
+def tg_must_write(case):
+    tr, st, en, name, pt, p = tg_args(case)
+    return bool(tr) and (st is None or st <= min(x[1] for x in tr)) and (en is None or en >= max(x[2] for x in tr))
+
+
 def tg_spec_term(case, out):
-    """round trip judged on the implementation's output alone (fill=None reading)"""
+    """round trip judged on the implementation's output alone"""
     tr, st, en, name, pt, p = tg_args(case)
     if out.get("r_file") is None or out["r_file"][1] is not None:
         return "false"
-    point = '"TextTier"' in out["w_file"].split("\n")[6]
     val = out["r_file"][0]
     ents = cl([cp(cs(t), cq(Fraction(s)), cq(Fraction(e))) for t, s, e in val[0]])
-    if case.get("fill") is None:
-        return f"tg_roundtrip_okb {cn(p)} {cb(point)} {coq_entries(tr)} {ents}"
-    return f"contiguousb {cq(Fraction(val[1]))} {cq(Fraction(val[2]))} {ents}"
+    fill = case.get("fill")
+    if fill is None:
+        return f"tg_roundtrip_okb {cn(p)} {cb(pt is True)} {coq_entries(tr)} {ents}"
+    return (f"(contiguousb {cq(Fraction(val[1]))} {cq(Fraction(val[2]))} {ents} && "
+            f"no_empty_gapsb {cs(fill)} {coq_entries(tr)} {ents})")
 
 
 # ----------------------------------------------------------------------------------------
@@ -558,6 +571,8 @@ def terms_tok(case, out):
         rows = cres(None, cl([cp(cz(a), cz(b), cz(c)) for a, b, c in ref]))
     terms["transcript_to_token = model"] = (
         f"check_to_token {coq_items(case['tr'])} {t2i} {fsq} {unk} {cb(skip)} {rows}" if rows else "false")
+    if case.get("roundtrip") and fs and (ref is None or out.get("back_exc") is not None):
+        terms["spec: tokens same, times within one frame shift"] = "false"
     if ref is not None:
         if out["back_exc"] is not None:
             terms["token_to_transcript = model"] = "false"
@@ -587,7 +602,56 @@ def terms_tok(case, out):
     return terms, meta
 
 
+def impl_tok_back(chk, case):
+    import torch
+    from pydrobert.torch.data import token_to_transcript
+
+    ref = torch.tensor(case["ref"], dtype=torch.long)
+    if case["shape"] == 1:
+        ref = ref.reshape(-1) if case["ref"] else torch.zeros((0,), dtype=torch.long)
+    elif not case["ref"]:
+        ref = torch.zeros((0, case["shape"]), dtype=torch.long)
+    i2t = None if case.get("id2token") is None else {k: v for k, v in case["id2token"]}
+    back, e = call(token_to_transcript, ref, i2t, case.get("fs"))
+    return {"back": back, "back_exc": e}
+
+
+def terms_tok_back(case, out):
+    fs = case.get("fs")
+    fsq = "None" if not fs else co(cq(Fraction(fs)))
+    rows = [(r[0], r[1], r[2]) if case["shape"] == 3 else (r[0] if isinstance(r, list) else r, -1, -1) for r in case["ref"]]
+    if out["back_exc"] is not None or len(out["back"]) != len(rows):
+        return {"token_to_transcript(any tensor) = model": "false"}, []
+    items = []
+    for (i, s, e), b in zip(rows, out["back"]):
+        if isinstance(b, tuple):
+            t, bs, be = b
+            if fs:
+                okf = (s * fs / 1000 == bs) and (e * fs / 1000 == be) and Fraction(s * fs) == Fraction(s) * Fraction(fs)
+                qs, qe = (Fraction(s) * Fraction(fs) / 1000, Fraction(e) * Fraction(fs) / 1000) if okf else (Fraction(bs), Fraction(be))
+            else:
+                qs, qe = Fraction(bs), Fraction(be)
+            items.append(f"Timed {coq_tk(t)} {cq(qs)} {cq(qe)}")
+        else:
+            items.append(f"Plain {coq_tk(b)}")
+    i2t = "None" if case.get("id2token") is None else co(cl([cp(cz(k), coq_tk(v)) for k, v in case["id2token"]]))
+    refq = cl([cp(cz(a), cz(b), cz(c)) for a, b, c in rows])
+    return {"token_to_transcript(any tensor) = model": f"check_to_transcript {refq} {i2t} {fsq} {cl(items)}"}, []
+
+
+def g_tok_back(rng):
+    shape = rng.choice([3, 3, 3, 1, 1])
+    n = rng.choice([0, 1, 2, 4, 6])
+    if shape == 3:
+        ref = [[rng.randint(0, 9), rng.choice([-1, -1, 0, 1, 5, 40]), rng.choice([-1, -1, 0, 2, 7, 41])] for _ in range(n)]
+    else:
+        ref = [[rng.randint(0, 9)] for _ in range(n)] if rng.random() < 0.5 else [rng.randint(0, 9) for _ in range(n)]
+    i2t = rng.choice([None, [[1, "one"], [2, "two"], [5, 50]], [[0, "a"]]])
+    return {"kind": "tok_back", "ref": ref, "shape": shape, "id2token": i2t, "fs": rng.choice([None, 0, 10, 12.5, 0.125])}
+
+
 KINDS = {
+    "tok_back": (impl_tok_back, terms_tok_back),
     "trn": (impl_trn, terms_trn), "trn_text": (impl_trn_text, terms_trn_text), "trn_pool": (impl_trn_pool, terms_trn_pool),
     "ctm": (impl_ctm, terms_ctm), "ctm_text": (impl_ctm_text, terms_ctm_text),
     "tg": (impl_tg, terms_tg), "tok": (impl_tok, terms_tok),
@@ -877,7 +941,7 @@ def gen_cases(chk):
     mult = 8 if thorough else 1
     plan = [(g_trn, 260), (lambda r: g_trn(r, wild=True), 120), (g_trn_text, 300), (g_ctm, 260),
             (lambda r: g_ctm(r, wild=True), 120), (g_ctm_text, 160), (g_tg, 330), (lambda r: g_tg(r, wild=True), 90),
-            (g_tok_case, 330), (lambda r: g_tok_case(r, wild=True), 80)]
+            (g_tok_case, 330), (lambda r: g_tok_case(r, wild=True), 80), (g_tok_back, 120)]
     for g, n in plan:
         for _ in range(n * mult):
             c = g(rng)
@@ -906,6 +970,8 @@ def nontrivial(case):
         return len(case["tr"]) >= 2 or case.get("point_tier") is not None or case.get("precision", 3) != 3
     if k == "tok":
         return any(isinstance(x, list) for x in case["tr"])
+    if k == "tok_back":
+        return case["shape"] == 3 and len(case["ref"]) > 0
     return False
 
 
@@ -919,8 +985,12 @@ def evaluate(chk, cases, tag="cases"):
     per, flat = [], []
     for c in cases:
         impl, mk = KINDS[c["kind"]]
-        out = impl(chk, c)
-        terms, meta = mk(c, out)
+        try:
+            out = impl(chk, c)
+            terms, meta = mk(c, out)
+        except Exception as e:  # noqa: BLE001 - an output the harness cannot canonicalise is a disagreement, not a crash
+            out = {"harness_exception": repr(e)}
+            terms, meta = {"implementation output has the documented shape": "false"}, []
         per.append((list(terms.keys()), meta, out))
         flat.extend(terms.values())
     vals = coq_eval_bools(chk.workdir, IMPORTS, flat, shard=150, tag=tag)
